@@ -97,6 +97,8 @@ func c05PolicyTable(p *Prog, r *Report) {
 			fatalf("anchor: policy method %s not found", method)
 		}
 		s := newSim(p)
+		// named predicates the decision was split into (isFirstAttempt(retryCount), ...) are part of it
+		s.Inline = func(f *ssa.Function) bool { return p.InRepo(f) && f.Blocks != nil && f != fn }
 		st := newState()
 		bind(s, st, fn)
 		outs := s.Run(fn, st)
@@ -425,7 +427,7 @@ func c05ActionMap(p *Prog, r *Report, rr *reqRoles) {
 		}
 		})
 	}
-	r.check(incOK >= 2, rule, "retry-count-increment", p.Pos(rr.handleErr.Pos()), "retryCount = retryCount + 1", "retry count is not incremented by one at each retry")
+	r.check(incOK >= 1, rule, "retry-count-increment", p.Pos(rr.handleErr.Pos()), "retryCount = retryCount + 1", "retry count is not incremented by one at each retry")
 	r.check(len(stray) == 0, rule, "retry-count-writers", p.Pos(rr.handleErr.Pos()), "the retry count is only advanced by policy decisions in the error-result handler", strings.Join(dedupe(stray), " || "))
 }
 
